@@ -92,6 +92,19 @@ def run(tier, seed):
                 k, pad = rng.choice([1, 2]), rng.random() < 0.5
                 reqs.append('render %d %d %s' % (k, int(pad), tb(d)))
                 meta.append(('render', did, d, k, pad))
+        # dump files whose data bytes are the delimiter characters of the OTHER line format (':', '<', '>', blanks, hex digits):
+        # they show up in the character column, where no format may be recognised by them
+        for k in (1, 2):
+            for _ in range(12 if thorough else 4):
+                d = bytearray(gen_dump(rng) or b'\x01')
+                for _ in range(rng.randrange(1, 6)):
+                    d[rng.randrange(min(len(d), 48))] = rng.choice(b':<> 0A')
+                if rng.random() < 0.5:
+                    d[rng.randrange(min(len(d), 16))] = 0x3A
+                d = bytes(d)
+                did = rng.randrange(len(drawers))
+                reqs.append('render %d %d %s' % (k, int(rng.random() < 0.5), tb(d)))
+                meta.append(('render', did, d, k, False))
         replies = lean_batch(reqs)
         filereqs, filemeta = [], []
         for m, r in zip(meta, replies):
